@@ -199,7 +199,7 @@ Definition namelists_of_string (s : string) : list (list bytes) := map hexlist_o
 Definition show_names (l : list bytes) : string := match l with [] => "-" | _ => String.concat "," (map hex_of_bytes l) end.
 Definition show_kex (k : bytes * list (list bytes) * Z * Z) : string :=
   let '(cookie, ls, f, res) := k in
-  hex_of_bytes cookie ++ " " ++ String.concat "|" (map show_names ls) ++ " " ++ string_of_Z f ++ " " ++ string_of_Z res.
+  hex_of_bytes cookie ++ " " ++ String.concat "|" (map show_names ls) ++ " " ++ (if f =? 0 then "0" else "1") ++ " " ++ string_of_Z res.   (* RFC 4251 5: every non-zero octet is TRUE *)
 
 
 (* certificate options: name:data|name:_ with hex fields, "-" for none *)
@@ -274,6 +274,11 @@ Definition run_words (ws : list string) : string :=
   | ["pcotp"; ty; h] => show_result (fun x => show_zz (fst (fst x)) ++ ";" ++ hex_of_bytes (snd (fst x)) ++ " n=" ++ string_of_Z (snd x))
                                     (parse_cotp (z_of_string ty) (bytes_of_hex h))
   | ["rdpnegenc"; ty; flags; protos] => "OK " ++ hex_of_bytes (enc_rdp_neg (z_of_string ty) (z_of_string flags) (z_of_string protos))
+  | ["rdpnegdec"; ty; h] =>
+      match dec_rdp_neg (bytes_of_hex h) with
+      | Some (t, f, p, r) => if t =? z_of_string ty then "OK " ++ string_of_Z t ++ " " ++ string_of_Z f ++ " " ++ string_of_Z p ++ " n=" ++ string_of_Z (zlen (bytes_of_hex h) - zlen r) else "NONE"
+      | None => "NONE"
+      end
   | ["mysqlpktenc"; seq; h] => show_opt (enc_mysql_packet (z_of_string seq) (hex_or_empty h))
   | ["mysqlssl41"; caps; mx; cs] => "OK " ++ hex_of_bytes (enc_mysql_ssl_request41 (z_of_string caps) (z_of_string mx) (z_of_string cs))
   | ["mysqlhs"; ver; cid; a1; caps; cs; st; a2; pl] =>
